@@ -4,6 +4,8 @@ import DaskModel.Model.Repart
 import DaskModel.Model.Divs
 import DaskModel.Model.Shuffle
 import DaskModel.Model.Groupby
+import DaskModel.Model.Join
+import DaskModel.Model.Csv
 open Dask
 
 /-- `(sdl (seq…) npartitions n)` / `(sdl (seq…) chunksize c)` ↦ `(ok (divisions…) (locations…))` | `(raised)` -/
@@ -195,7 +197,41 @@ def hGroupby : Handler := handler fun args =>
     | _ => none
   | _ => none
 
-def table : List (String × Handler) := [("sdl", hSdl), ("groupby", hGroupby),
+/-! ## C39 -/
+def pairs? (e : SExp) : Option (List (Nat × Nat)) := do
+  (← e.toList?).mapM fun r => match r with
+    | .list [k, v] => do pure (← k.toNat?, ← v.toNat?)
+    | _ => none
+
+def ofOut (o : Join.Out) : SExp := .list [SExp.ofNat o.1, SExp.ofOptNat o.2.1, SExp.ofOptNat o.2.2]
+
+/-- `(join how L R)` / `(hash-join how n L R)` (identity hash) ↦ output rows `(key left? right?)` -/
+def joinOf? (how : String) : Option (List Join.Row → List Join.Row → List Join.Out) :=
+  match how with
+  | "inner" => some Join.inner | "left" => some Join.left | "leftsemi" => some Join.leftsemi
+  | "outer" => some Join.outer | "right" => some Join.right | _ => none
+
+def hJoin : Handler := handler fun args =>
+  match args with
+  | [.sym how, l, r] => do pure (.list (((← joinOf? how) (← pairs? l) (← pairs? r)).map ofOut))
+  | _ => none
+
+def hHashJoin : Handler := handler fun args =>
+  match args with
+  | [.sym how, n, l, r] => do
+    pure (.list ((Join.hashJoin (← joinOf? how) (fun k => k) (← n.toNat?) (← pairs? l) (← pairs? r)).map ofOut))
+  | _ => none
+
+/-! ## C47 -/
+/-- `(csv-parts (bytes…) bs|none)` ↦ `(ok ((row…)…))` rows (byte lists) per partition -/
+def hCsvParts : Handler := handler fun args =>
+  match args with
+  | [d, b] => do
+    let r := Csv.readCsvParts (← d.toNats?) (← optNat? b)
+    pure (okOr (r.map fun parts => .list (parts.map SExp.ofNatss)))
+  | _ => none
+
+def table : List (String × Handler) := [("sdl", hSdl), ("groupby", hGroupby), ("csv-parts", hCsvParts), ("join", hJoin), ("hash-join", hHashJoin),
   ("stage-index", hStageIndex), ("simple-shuffle", hSimpleShuffle), ("task-shuffle", hTaskShuffle),
   ("layer-wiring", hLayerWiring), ("set-partitions-pre", hSetPartitionsPre),
   ("truthful", hTruthful), ("locslice-divs", hLocSliceDivs), ("partitions-divs", hPartitionsDivs),
